@@ -126,3 +126,14 @@ package util
 // is stable for nobody. So: only the two dequeue methods may combine a reading with the lock, and they may only go on to
 // the lock when the reading was not zero; nothing else that takes the lock may consult the mailbox first.
 //@ unlocked [C20] (*Queue).getDepth by Queue.lock nonzero-for (*Queue).Dequeue, (*Queue).DequeueAll
+
+// ---- C13: the from-file variants send every line of the file: a scan that ended early (a line longer than the scanner's
+// buffer, a read error) is an error, not a shorter list of commands (F15)
+//@ ghost scanErr error local
+//@ func LoadFileLines [C13]
+//@   nosafety
+//@   modifies alloc()
+//@   at call! Err#1 assert #the-scanner-is-asked-whether-it-stopped-early true
+//@   after call Err#1 set scanErr = result
+//@   at return assert #lines-are-returned-only-from-a-scan-that-reached-the-end-of-the-file result.1 == nil ==> scanErr == nil
+//@   loop 1 invariant true
